@@ -240,7 +240,9 @@ func (s *ServantProxy) doInvoke(ctx context.Context, msg *Message, timeout time.
 
 	if s.pushCallback != nil {
 		// auto keep alive for push client
-		go adp.onceKeepAlive.Do(adp.autoKeepAlive)
+		// (Once.Do returns only when the function has returned: the loop is started from inside it,
+		// or every later call would leave a goroutine waiting in Do for good)
+		adp.onceKeepAlive.Do(func() { go adp.autoKeepAlive() })
 		adp.pushCallback = s.pushCallback
 	}
 
